@@ -27,5 +27,6 @@ func controlsC11() []Control {
 		{Name: "hand never launches the queue consumer", Expect: "R8", Mutate: replaceIn("(*game).Start", "\tg.runGameStateUpdater()\n", "", 0)},
 		{Name: "dispatcher calls the handler only when none exists", Expect: "R8", Mutate: replaceIn("(*game).handleGameState", "if handler, exist := handlers[event]; exist {", "if handler, exist := handlers[event]; !exist {", 0)},
 		{Name: "pay routed by the round name instead of the event", Expect: "R5", Mutate: replaceIn("(*game).Pay", "pokerface.GameEventBySymbol[g.gs.Status.CurrentEvent]", "pokerface.GameEventBySymbol[g.gs.Status.Round]", 0)},
+		{Name: "hooks registered on the previous hand object", Expect: "R8", Mutate: replaceIn("(*tableEngine).startGame", "te.game = NewGame(te.gameBackend, opts)", "_ = NewGame(te.gameBackend, opts)", 0)},
 	}
 }
